@@ -1,6 +1,6 @@
 ----------------------------- MODULE ArgParseCases -----------------------------
 (* Judge of recorded runs of the real config.FlagSet.Parse:
-   {v: argument vector, err, panic, b, s, i, help, rest}. *)
+   {v: argument vector, err, panic, b, t, s, i, help, rest}. *)
 EXTENDS ArgParse, Json
 Cases == ndJsonDeserialize("cases.ndjson")
 ExistingConfig == ndJsonDeserialize("cfgpath.ndjson")[1]
@@ -12,7 +12,7 @@ Agrees(c) == LET o == Outcome(c.v, ExistingConfig) IN
     /\ (o.err = "yes" => c.err)
     /\ (o.err = "no" => ~c.err)
     /\ (~c.err /\ o.err # "yes") =>
-          /\ c.b = o.b /\ c.help = o.help /\ c.s = o.s /\ c.rest = o.rest
+          /\ c.b = o.b /\ c.t = o.t /\ c.help = o.help /\ c.s = o.s /\ c.rest = o.rest
           /\ (o.iknown => c.i = o.i)
 JudgeOK == Agrees(Cases[i]) \/ PrintT(<<"BAD", i>>)
 =============================================================================
